@@ -145,7 +145,11 @@ def check(run, prog, tier):
         S = [bid for bid in f.reachable() if f.blocks[bid].term and f.blocks[bid].term["k"] == "SwitchStmt"]
         if not S:
             return {}
-        S = S[0]
+        # the switch on the value tag: the one with the most `case T_...` labels (a switch on a character inside one of
+        # the cases is not it)
+        def ntags(bid):
+            return sum(1 for s in f.blocks[bid].live_succ() if f.blocks[s].label and f.blocks[s].label.get("k") == "case" and str(f.blocks[s].label.get("src") or "").startswith("T_"))
+        S = max(S, key=lambda bid: (ntags(bid), -bid))
         out = {}
         for s in f.blocks[S].live_succ():
             lab = f.blocks[s].label
